@@ -75,11 +75,22 @@ class Interp:
         self._keepalive = [k for k, _ in stubs]
         self._subst = {id(k): v for k, v in stubs}
 
+    def reset_shadows(self):
+        """called at the start of every path"""
+        self._shadows = {}
+
     def subst(self, v):
         if self._subst:
             r = self._subst.get(id(v))
             if r is not None:
                 return r
+        if type(v) is bytearray:
+            # a real bytearray the program did not create on this path is pre-existing shared state (a module- or class-level buffer): all
+            # accesses on this path go to ONE symbolic shadow of it, so that aliasing between its users is preserved
+            sh = self.__dict__.setdefault("_shadows", {})
+            if id(v) not in sh:
+                sh[id(v)] = (v, V.SymByteArray(list(v)))
+            return sh[id(v)][1]
         return v
 
     # ------------------------------------------------------------------ function ASTs
@@ -804,7 +815,7 @@ def _enum_lookup(cls, v):
         vals = sorted({m.value for m in cls})
         ok = V.mkbool(z3.Or(*[(v == x).t for x in vals if not isinstance(v == x, bool)] or [z3.BoolVal(False)]))
         if bool(ok):
-            return v
+            return SymEnum(v, cls)
         raise ValueError(f"<symbolic> is not a valid {cls.__name__}")
     if issubclass(cls, int) and "_missing_" in cls.__dict__:
         # IntEnum with a catch-all _missing_ (every int is accepted).  If the placeholder members it creates have the right integer value,
@@ -812,7 +823,7 @@ def _enum_lookup(cls, v):
         # value gives 0), the model has to be faithful to that: a proxy whose integer value is the placeholder's and whose .value is symbolic.
         q = _missing_quirk(cls)
         if q is None:
-            return v
+            return SymEnum(v, cls)
         for m in cls:
             if isinstance(m.value, int) and truth(v == m.value):
                 return m
@@ -839,6 +850,29 @@ def _missing_quirk(cls):
         except Exception:
             _QUIRKS[cls] = None
     return _QUIRKS[cls]
+
+
+class SymEnum(V.SymInt):
+    """member of an IntEnum looked up by a symbolic value: the symbolic int itself (members compare equal to their value), which also knows
+    its enumeration so that .name can be answered (forks over the members)"""
+
+    __slots__ = ("enum_cls",)
+
+    def __init__(self, v, enum_cls):
+        V.SymInt.__init__(self, v.t, v.lo, v.hi)
+        self.enum_cls = enum_cls
+
+    def _member(self):
+        for m in self.enum_cls:
+            if isinstance(m.value, int) and truth(self == m.value):
+                return m
+        return self.enum_cls(Engine.current.concretize(self))  # _missing_ placeholder
+
+    @property
+    def name(self):
+        return self._member().name
+
+    _name_ = name
 
 
 class EnumProxy(int):
@@ -933,6 +967,15 @@ class SymUUID:
     def __hash__(self):
         b = self.bytes_le.realize() if isinstance(self.bytes_le, V.SymSeq) else bytes(self.bytes_le)
         return hash(uuid.UUID(bytes_le=b))
+
+    @property
+    def bytes(self):
+        le = V.seq_items(self.bytes_le)
+        return V.SymBytes(le[3::-1] + le[5:3:-1] + le[7:5:-1] + le[8:]).norm()
+
+    @property
+    def int(self):
+        return V.int_from_bytes(self.bytes, "big")
 
     def __bool__(self):
         return True
